@@ -16,10 +16,35 @@ class DeferredPool:
     _threads = ()
     _work_queue = cm.NS(qsize=lambda: 0)
 
-    def __init__(self):
+    def __init__(self, execution=None, at_once=False):
         self.pending = []
+        self.at_once = at_once
+        self.cache = {}
+        if at_once:
+            # the request reaches the exchange when it is made (the API call of the execution body happens now, against the bet
+            # table as it is now); what is deferred is flumine's processing of the answer
+            self.real = {k: getattr(execution, k) for k in ("place", "cancel", "update", "replace")}
+            for k in self.real:
+                setattr(execution, k, self._answer(k))
+
+    def _answer(self, kind):
+        def call(order_package, session):
+            hit = self.cache.pop(order_package.id, None)
+            if hit is None:
+                return self.real[kind](order_package, session)
+            if hit[0] == "exc":
+                raise hit[1]
+            return hit[1]
+        return call
 
     def submit(self, fn, *a, **kw):
+        if self.at_once:
+            pkg, session = a[0], a[1]
+            kind = fn.__name__.replace("execute_", "")
+            try:
+                self.cache[pkg.id] = ("ok", self.real[kind](pkg, session))
+            except Exception as e:  # noqa
+                self.cache[pkg.id] = ("exc", e)
         self.pending.append((fn, a, kw))
 
     def run_one(self):
@@ -133,7 +158,9 @@ def _agree(c, fl, ex, market, strategy, tag):
         c.ob("%s.bet-%s.size-matched" % (tag, bid[-1]), o.size_matched == b["matched"], local=o.size_matched, exchange=b["matched"])
         c.ob("%s.bet-%s.size-remaining" % (tag, bid[-1]), o.size_remaining == ex.remaining(b), local=o.size_remaining, exchange=ex.remaining(b))
         done = b["status"] == "EXECUTION_COMPLETE"
-        c.ob("%s.bet-%s.completeness" % (tag, bid[-1]), o.complete == done, local=o.status.name, exchange=b["status"])
+        # (known finding F18 is specific to the coincidence 'amount cancelled == what then remains at the exchange')
+        c.ob("%s.bet-%s.completeness" % (tag, bid[-1]), o.complete == done, local=o.status.name, exchange=b["status"],
+             cancelled_equals_remainder=(b["cancelled"] > 0 and b["cancelled"] == ex.remaining(b)))
         if done:
             c.ob("%s.bet-%s.left-live-list" % (tag, bid[-1]), o not in market.blotter._live_orders)
     for t in market.blotter._trades:
@@ -149,7 +176,9 @@ def h11a(c, K=3, async_place=False):
     with cm.config_set(simulated=False, async_place_orders=async_place):
         ex = Exchange()
         fl, client, (strategy,) = cm.new_live(exchange=ex)
-        pool = DeferredPool()
+        at_once = c.choose("request_reaches_exchange", ["when-its-answer-is-processed", "at-once"]) == "at-once"
+        c.tag("at_once", at_once)
+        pool = DeferredPool(fl.betfair_execution, at_once)
         fl.betfair_execution._thread_pool = pool
         market = fl._add_market(cm.MID, cm.book([cm.runner(1), cm.runner(2)], version=7))
         o = cm.mk_limit(strategy, "BACK", 2.0, 10.0)
@@ -172,9 +201,10 @@ def h11a(c, K=3, async_place=False):
                     if act == "request-cancel":
                         market.cancel_order(x, force=True)
                     elif act == "request-partial-cancel":
-                        if x.size_remaining <= 3.0:
+                        red = c.choose("reduction%d" % k, [3.0, 6.0])
+                        if x.size_remaining <= red:
                             continue
-                        market.cancel_order(x, 3.0, force=True)
+                        market.cancel_order(x, red, force=True)
                     else:
                         market.replace_order(x, [3.0, 3.05, 3.1, 3.15, 3.2][k], force=True)
                     c.cover("request")
@@ -226,6 +256,25 @@ def h11b(c, n=2):
             sel = c.choose("b%d_selection" % i, [1, 2])
             price = c.pick("b%d_price" % i, [1.5, 2.0, 3.5, 11.0])
             size = c.cents("b%d_size" % i, 1, 100000)
+            kind = c.choose("b%d_kind" % i, ["LIMIT", "LIMIT_ON_CLOSE", "MARKET_ON_CLOSE"])
+            if kind != "LIMIT":
+                # a starting-price bet waiting for the reconciliation: the exchange reports its liability separately, the size
+                # field of priceSize is whatever the exchange puts there (any value)
+                liab = c.cents("b%d_liability" % i, 1, 100000)
+                ps_size = c.cents("b%d_price_size_size" % i, 0, 100000)
+                o = cm.mk_loc(s1, side, liab, price, selection_id=sel, handicap=hc) if kind == "LIMIT_ON_CLOSE" else cm.mk_moc(s1, side, liab, selection_id=sel, handicap=hc)
+                o.update_client(client1)
+                o.bet_id = str(600 + i)
+                o.responses.placed(lc.place_report("SUCCESS", "EXECUTABLE", o.bet_id))
+                m1.blotter[o.id] = o
+                o.status = S.EXECUTABLE
+                s1.get_runner_context(*o.lookup).place(o.trade.id)
+                snap.append(cm.current_order(o.customer_order_ref, o.bet_id, selection_id=sel, handicap=hc, side=side, price=price if kind == "LIMIT_ON_CLOSE" else 0.0,
+                                             size=ps_size, status="EXECUTABLE", size_matched=0, size_remaining=0, order_type=kind, bsp_liability=liab,
+                                             persistence_type="MARKET_ON_CLOSE"))
+                lookups.add((cm.MID, sel, hc))
+                c.cover("sp-bet")
+                continue
             state = c.choose("b%d_state" % i, ["resting", "part-matched", "complete-matched", "complete-cancelled"])
             if state == "resting":
                 m, canc = 0, 0
@@ -294,7 +343,7 @@ HARNESSES = [
             outside=OUT, max_paths=(400000, 5000000), wall_s=(300, 3000), selfcheck=False),
     Harness("H11a-async", h11a, quick=dict(K=3, async_place=True), thorough=dict(K=4, async_place=True), pattern="P3/P5 schedule as a variable", requires=["run", "snapshot"],
             outside=OUT, max_paths=(400000, 5000000), wall_s=(300, 3000), selfcheck=False),
-    Harness("H11b", h11b, quick=dict(n=2), thorough=dict(n=3), pattern="P4 relational (pre-crash vs restarted instance)", requires=["restart"], outside=OUT,
+    Harness("H11b", h11b, quick=dict(n=2), thorough=dict(n=3), pattern="P4 relational (pre-crash vs restarted instance)", requires=["restart", "sp-bet"], outside=OUT,
             max_paths=(400000, 5000000), wall_s=(300, 3000)),
 ]
 META = {"assumptions": ["handler granularity: each execute_* body and each snapshot is atomic; the exchange answers at the moment the request is made"]}
